@@ -93,11 +93,21 @@ def gen_graph(rng, size=None, xml_safe=False, lists=True, classes=None, ill_type
 
 
 def gen_list(rng, subs, cls, xml_safe=False):
-    kind = rng.choice(["wellformed", "wellformed", "literal-members", "shared-tail", "extra-prop", "cyclic", "ring", "empty", "nested", "no-nil", "two-first"])
+    kind = rng.choice(["wellformed", "wellformed", "literal-members", "shared-tail", "extra-prop", "cyclic", "ring", "empty", "nested", "no-nil", "two-first", "off-cycle", "off-cycle"])
     cls.add("list:" + kind)
     t = set()
     n = rng.randint(1, 4)
     cells = [BNode("l%d_%d" % (rng.randrange(100), i)) for i in range(n)]
+    owner = None
+    if kind == "off-cycle":
+        # a well-formed list that hangs off a blank node lying on a cycle: nothing is a root, so the order in which a serializer
+        # visits owner, head and inner cells follows their labels - every order is wanted
+        n = rng.randint(2, 3)
+        labels = rng.sample(["a", "m", "z", "k"], n + 1)
+        owner = BNode(labels[0]); cells = [BNode(x) for x in labels[1:]]
+        if rng.random() < 0.6: t.add((owner, rand_pred(rng, xml_safe), owner))
+        else:
+            other = BNode("c%d" % rng.randrange(3)); t.add((owner, rand_pred(rng, xml_safe), other)); t.add((other, rand_pred(rng, xml_safe), owner))
     def member():
         if kind == "literal-members" or rng.random() < 0.4:
             return norm_literal(rng, xml_safe=xml_safe)[0]
@@ -114,7 +124,9 @@ def gen_list(rng, subs, cls, xml_safe=False):
         t.add((c, RDF.rest, nxt))
     if kind == "two-first": t.add((cells[-1], RDF.first, Literal("second-first")))
     if kind == "extra-prop": t.add((cells[rng.randrange(n)], rand_pred(rng, xml_safe), Literal("extra")))
-    if kind != "ring":  # a ring has no entry point at all
+    if kind == "off-cycle":
+        t.add((owner, rand_pred(rng, xml_safe), head))
+    elif kind != "ring":  # a ring has no entry point at all
         t.add((rng.choice(subs), rand_pred(rng, xml_safe), head))
     if kind == "shared-tail":
         other = BNode("lo%d" % rng.randrange(100))
